@@ -423,6 +423,27 @@ class C08(common.Prop):
                 out["conv"].append(["ok", dump_body(getattr(bodies[0], kind)(), kind)])
             except Exception as e:
                 out["conv"].append(["err", type(e).__name__])
+        # conversion of a NumPy body whose array was written to in place (numpy.ma unmasks what is assigned): the converted bodies'
+        # missing pattern comes from the confidences - a point is missing exactly when its confidence is 0 - not from whatever the
+        # NumPy mask holds at the moment
+        case["_edited"] = None
+        if bodies[0] is not None and int(np.prod(case["shape"])) > 0:
+            try:
+                nb = bodies[0].copy()
+                nb.data[...] = np.asarray(nb.data.data) + np.float32(0.0)
+                conf = np.asarray(nb.confidence)
+                want_valid = np.repeat((conf != 0)[..., None], nb.data.shape[-1], axis=-1)
+                ed = {}
+                for kind in ("torch", "tensorflow"):
+                    try:
+                        cb = getattr(nb, kind)()
+                        ed[kind] = ["ok", bool(np.array_equal(np.asarray(cb.data.mask).astype(bool), want_valid)),
+                                    bool(np.array_equal(np.asarray(cb.confidence), conf, equal_nan=True))]
+                    except Exception as e:
+                        ed[kind] = ["err", type(e).__name__]
+                case["_edited"] = ed
+            except Exception:
+                case["_edited"] = None
         for j, op in enumerate(case["ops"]):
             for i, kind in enumerate(BACKENDS):
                 if bodies[i] is None:
@@ -701,6 +722,13 @@ class C08(common.Prop):
             d = self._cmp_obs(pg.strip_err(out["conv"][i]), exp, "NumPy body .%s() vs the file's content" % kind)
             if d:
                 return {"what": d, "stage": "convert", "backend": kind, "D": D, "odd_conf": odd_conf, "got": common.small(out["conv"][i], 500)}
+        for kind, rec in (case.get("_edited") or {}).items():
+            if skip_tf and kind == "tensorflow":
+                continue
+            if rec[0] != "ok" or not rec[1] or not rec[2]:
+                return {"what": "NumPy body written to in place, then .%s(): %s" % (kind, "raises " + rec[1] if rec[0] != "ok" else
+                        "the converted body's missing pattern is not `confidence == 0`" if not rec[1] else "confidences differ"),
+                        "stage": "convert-after-edit", "backend": kind, "D": D, "odd_conf": odd_conf}
         for j, op in enumerate(case["ops"]):
             edge = op_edge(case, op)
             # a negative index leaves the common domain only on TensorFlow (tf.gather rejects it); NumPy and Torch share
@@ -760,6 +788,8 @@ class C08(common.Prop):
             if bk in ("torch", "tensorflow") and failure.get("odd_conf") and "valid differs" in what:
                 return "validity-rule-negative-or-nan-confidence"
             return "%s-%s" % (st, bk)
+        if st == "convert-after-edit":
+            return "convert-after-edit-%s" % bk
         op = failure.get("op")
         if failure.get("edge"):
             return "%s-%s-%s" % (op, bk, failure["edge"])
